@@ -116,7 +116,7 @@ Proof.
       split; [apply (numkinv_xd c k q wr closed I Hp)|]. split; [reflexivity | fold L; lia]. }
     destruct r2 as [[wr' path']| |]; [|eexists _, _, _; split; [reflexivity | right; exact D]..].
     destruct (w_flush_dead (kw q 0) wr Hd) as [wra Ef]. rewrite Ef. cbv beta iota zeta. rewrite w_drop_dead by assumption.
-    unfold cleanup_or_queue. destruct (cleanup_impl_dead c (kw q 0) k IFNum false Hd) as [rc Ec].
+    unfold cleanup_or_queue. destruct (cleanup_impl_dead c (kw q 0) k IFNum None Hd) as [rc Ec].
     cbn [ns_filter ns_writes_direct]. rewrite Ec. eexists _, _, _. split; [reflexivity | right; exact D].
   - (* killed at the creation of the new current file *)
     rewrite Er. cbv beta iota zeta.
@@ -125,7 +125,7 @@ Proof.
     rewrite p_open_kw by (apply quiet_set_fs; exact Q). rewrite wfs_set_fs. unfold file_of at 1. rewrite L1c. cbn [eff].
     pose proof (dead_kw (set_fs q f1) (quiet_set_fs q f1 Q)) as Hd.
     destruct (w_flush_dead (kw (set_fs q f1) 0) wr Hd) as [wra Ef]. rewrite Ef. cbv beta iota zeta. rewrite w_drop_dead by assumption.
-    unfold cleanup_or_queue. destruct (cleanup_impl_dead c (kw (set_fs q f1) 0) k IFNum false Hd) as [rc Ec].
+    unfold cleanup_or_queue. destruct (cleanup_impl_dead c (kw (set_fs q f1) 0) k IFNum None Hd) as [rc Ec].
     cbn [ns_filter ns_writes_direct]. rewrite Ec. eexists _, _, _. split; [reflexivity|]. right.
     exists (set_fs q f1), (closed ++ [cur_view q wr]), None. split; [reflexivity|]. split; [apply quiet_set_fs; exact Q|].
     split.
@@ -297,7 +297,7 @@ Proof.
     unfold do_symlink. rewrite Hlink. rewrite p_open_kw by exact Q. rewrite Hnd. cbn [eff bind fst snd].
     destruct (roll_new_dead (kw q 0) crit (c_append c) (cname c) (dead_kw q Q)) as [r3 E3]. rewrite E3.
     destruct r3; cbn [bind]; eauto.
-    rewrite Ecl. destruct (cleanup_impl_dead c (kw q 0) k (ns_filter (NSNumR 0)) (naming_writes_direct NNumbers) (dead_kw q Q)) as [r4 E4].
+    rewrite Ecl. destruct (cleanup_impl_dead c (kw q 0) k (ns_filter (NSNumR 0)) (if naming_writes_direct NNumbers then Some (cname c) else None) (dead_kw q Q)) as [r4 E4].
     rewrite E4. destruct r4; cbn [bind]; eauto. rewrite Ebg. eauto.
   - unfold initialize. rewrite Hrot. unfold init_naming, index_for_rcurrent, with_listing.
     rewrite tick_kw by assumption.
@@ -338,7 +338,7 @@ Proof.
         + intros x j. rewrite F2. unfold lookup; cbn. destruct (beq_spec (cname c) x); [auto | discriminate].
       - unfold wr_ok, wr. cbn. destruct (c_cap c); [lia | reflexivity].
       - reflexivity. }
-    rewrite Ecl. change (ns_filter (NSNumR 0)) with IFNum. change (naming_writes_direct NNumbers) with false.
+    rewrite Ecl. change (ns_filter (NSNumR 0)) with IFNum. change (naming_writes_direct NNumbers) with false. cbv iota.
     rewrite (cleanup_budget_noop c crit k n m q2 [] 0 0 (S j') Hcfg Hk Hsfx Q2 (nk_dir _ _ _ _ _ _ I2) ltac:(cbn; lia)).
     cbn [bind]. rewrite Ebg.
     exists q2, wr, roll. split; [reflexivity|]. split; [exact I2|].
